@@ -38,6 +38,15 @@ def check_hop_loop(ctx, r, fn, raw):
                  "sibling loops use nni_msg_header_append and drop the message when it does not fit" % s.line)
     if wire and not appends:
         return
+    # the word moved to the header keeps its place in the sequence: appended, not inserted in front
+    fronts = [s for s in fn.calls(("nni_msg_header_insert", "nni_msg_header_insert_u32"))]
+    for s in fronts:
+        ctx.fail(r, fn, "backtrace word inserted at the front of the header", s.line,
+                 "%s at line %s puts the backtrace word in front of the words moved before it: a backtrace of two or more hops "
+                 "(a request that came through a device) is saved and replayed in reverse order, and the reply cannot be routed "
+                 "back" % (s.node["fn"], s.line))
+    if fronts and not appends:
+        return
     if not appends or not trims:
         raise AnalysisBroken("%s: hop loop anchors (nni_msg_header_append / nni_msg_trim(msg, 4)) vanished" % fn.name)
     # edges
